@@ -513,17 +513,17 @@ theorem handed_rects_disjoint_along_history (beh : Id → Rect → List DrawOp) 
 
 /-- A handler that repaints what it is asked to: a full pen of its own, then an erase of the handed rectangle. -/
 def solidBeh : Id → Rect → List DrawOp :=
-  fun w rect => [.setPen { fg := some (w + 1), bg := some 0, b := some false }, .eraseRect rect]
+  fun w rect => [.setPen { fg := some (w + 1), bg := some 0, b := some false, rv := some false }, .eraseRect rect]
 
-def solidContent : Id → Int → Int → Cell := fun w _ _ => ⟨32, w + 1, 0, false⟩
+def solidContent : Id → Int → Int → Cell := fun w _ _ => ⟨32, w + 1, 0, false, false⟩
 
 theorem solid_repaints : Repaints solidContent solidBeh := by
   intro w rect rb L C hw hm
-  show ((rb.setpen (some { fg := some ((w : Int) + 1), bg := some 0, b := some false })).eraseRect rect).cells L C = _
-  have hw' : (rb.setpen (some { fg := some ((w : Int) + 1), bg := some 0, b := some false })).writable L C = true := by
+  show ((rb.setpen (some { fg := some ((w : Int) + 1), bg := some 0, b := some false, rv := some false })).eraseRect rect).cells L C = _
+  have hw' : (rb.setpen (some { fg := some ((w : Int) + 1), bg := some 0, b := some false, rv := some false })).writable L C = true := by
     rw [writable_setpen]; exact hw
-  have hm' : (rect.translate (rb.setpen (some { fg := some ((w : Int) + 1), bg := some 0, b := some false })).xl
-      (rb.setpen (some { fg := some ((w : Int) + 1), bg := some 0, b := some false })).xc).memb L C = true := by
+  have hm' : (rect.translate (rb.setpen (some { fg := some ((w : Int) + 1), bg := some 0, b := some false, rv := some false })).xl
+      (rb.setpen (some { fg := some ((w : Int) + 1), bg := some 0, b := some false, rv := some false })).xc).memb L C = true := by
     rw [memb_translate]; exact hm
   simp only [RB.eraseRect, RB.putRect]
   rw [if_pos ⟨hm', hw'⟩]
@@ -1247,13 +1247,13 @@ theorem rootProbe_run (rect : Rect) (v : RootView)
     geometry to `{top 1, left 0, lines 1, cols 2}`, exposes the whole root and flushes.  The flush succeeds.  In the
     painter's model the root now lies over terminal row 1 (and clips the child away): `ownerAt st'.tree 1 0 =
     some (0, 0, 0)`.  But the flush has painted the root's row 0 at terminal row 0 (owned by no window), and terminal
-    row 1 still shows the child's cell `⟨32, 2, 0, false⟩`, not `solidContent 0 0 0 = ⟨32, 1, 0, false⟩`. -/
+    row 1 still shows the child's cell `⟨32, 2, 0, false, false⟩`, not `solidContent 0 0 0 = ⟨32, 1, 0, false, false⟩`. -/
 theorem root_setGeometry_counterexample : ¬ root_setGeometry_clause := by
   intro hcl
   have h : resIs (rootProbe ⟨1, 0, 1, 2⟩)
       ⟨some (false, true, ⟨1, 0, 1, 2⟩),
-       [(none, ⟨32, 1, 0, false⟩), (none, ⟨32, 1, 0, false⟩),
-        (some (0, 0, 0), ⟨32, 2, 0, false⟩), (some (0, 0, 1), ⟨32, 2, 0, false⟩)]⟩ = true := by decide +kernel
+       [(none, ⟨32, 1, 0, false, false⟩), (none, ⟨32, 1, 0, false, false⟩),
+        (some (0, 0, 0), ⟨32, 2, 0, false, false⟩), (some (0, 0, 1), ⟨32, 2, 0, false, false⟩)]⟩ = true := by decide +kernel
   obtain ⟨st, t1, t2, st', shots, hreach, _, _, h3, h4, h5, hv⟩ := rootProbe_run _ _ h
   have hex := hcl solidContent solidBeh st hreach ⟨1, 0, 1, 2⟩ t1 t2 st' shots h3 h4 h5
   simp only [rootView, RootView.mk.injEq, Prod.mk.injEq, List.cons.injEq] at hv
@@ -1273,8 +1273,8 @@ example : ∃ (st : St) (t1 t2 : Tree) (st' : St) (shots : List Shot), Reach sol
     WinFlush.flush solidBeh { st with tree := t2 } = .ok (st', shots) ∧ Exact solidContent st'.tree st'.screen := by
   have h : resIs (rootProbe ⟨0, 0, 1, 2⟩)
       ⟨some (false, true, ⟨0, 0, 1, 2⟩),
-       [(some (0, 0, 0), ⟨32, 1, 0, false⟩), (some (0, 0, 1), ⟨32, 1, 0, false⟩),
-        (none, ⟨32, 2, 0, false⟩), (none, ⟨32, 2, 0, false⟩)]⟩ = true := by decide +kernel
+       [(some (0, 0, 0), ⟨32, 1, 0, false, false⟩), (some (0, 0, 1), ⟨32, 1, 0, false, false⟩),
+        (none, ⟨32, 2, 0, false, false⟩), (none, ⟨32, 2, 0, false, false⟩)]⟩ = true := by decide +kernel
   obtain ⟨st, t1, t2, st', shots, hreach, _, _, h3, h4, h5, hv⟩ := rootProbe_run _ _ h
   refine ⟨st, t1, t2, st', shots, hreach, h3, h4, h5, ?_⟩
   simp only [rootView, RootView.mk.injEq, Prod.mk.injEq, List.cons.injEq] at hv
@@ -1505,7 +1505,7 @@ theorem inherit_not_repaints : ¬ Repaints inheritContent inheritBeh := by
 example : ∃ (st st' : St) (shots : List Shot), ReachP inheritContent st ∧
     RepaintsP st.tree st.pens inheritContent inheritBeh ∧ ¬ Repaints inheritContent inheritBeh ∧
     WinFlush.flush inheritBeh st = .ok (st', shots) ∧
-    st'.screen 1 2 = ⟨32, 3, 1, false⟩ ∧ st'.screen 1 1 = ⟨32, -1, 1, false⟩ ∧ st'.screen 0 0 = ⟨32, -1, 1, false⟩ := by
+    st'.screen 1 2 = ⟨32, 3, 1, false, false⟩ ∧ st'.screen 1 1 = ⟨32, -1, 1, false, false⟩ ∧ st'.screen 0 0 = ⟨32, -1, 1, false, false⟩ := by
   have hok : ∀ op ∈ penOps, op.Ok := by
     intro op hop
     simp only [penOps, List.mem_cons, List.mem_nil_iff, or_false] at hop
@@ -1521,7 +1521,7 @@ example : ∃ (st st' : St) (shots : List Shot), ReachP inheritContent st ∧
   have hfl : isOk (WinFlush.flush inheritBeh penState) = true := by decide +kernel
   have hscr : (match WinFlush.flush inheritBeh penState with
       | .ok r => (r.1.screen 1 2, r.1.screen 1 1, r.1.screen 0 0)
-      | .ub _ => (Cell.never, Cell.never, Cell.never)) = (⟨32, 3, 1, false⟩, ⟨32, -1, 1, false⟩, ⟨32, -1, 1, false⟩) := by
+      | .ub _ => (Cell.never, Cell.never, Cell.never)) = (⟨32, 3, 1, false, false⟩, ⟨32, -1, 1, false, false⟩, ⟨32, -1, 1, false, false⟩) := by
     decide +kernel
   cases h2 : WinFlush.flush inheritBeh penState with
   | ub e => rw [h2] at hfl; cases hfl
